@@ -115,26 +115,32 @@ public:
     QVariant(const QString &x) : kind(5), s(x) {}
     template <typename T, typename = std::enable_if_t<std::is_enum<T>::value>> QVariant(T x) : kind(6), i((long long)x) {}
     template <typename T> static QVariant fromValue(const T &) { QVariant v; v.kind = 7; return v; }
+    template <typename T> T value() const { if constexpr (std::is_same_v<T, QString>) return s; else if constexpr (std::is_arithmetic_v<T>) return kind == 4 ? T(dd) : T(i); else if constexpr (std::is_enum_v<T>) return T(i); else return T(); }
     friend bool operator==(const QVariant &a, const QVariant &b) { return a.kind == b.kind && a.i == b.i && a.dd == b.dd && a.s == b.s; }
     friend bool operator!=(const QVariant &a, const QVariant &b) { return !(a == b); }
 };
 
+// QFlags: deliberately PERMISSIVE about mixed enum / flags / int operands (Qt's own overload set depends on the Qt version and on
+// Q_DECLARE_OPERATORS_FOR_FLAGS); what C++ itself forbids (int -> plain enum) is still rejected by the compiler.
 template <typename T> class QFlags {
 public:
     int i = 0;
     QFlags() {}
     QFlags(T f) : i(int(f)) {}
-    explicit QFlags(int v) : i(v) {}
+    QFlags(int v) : i(v) {}
     operator int() const { return i; }
-    friend QFlags operator|(QFlags a, QFlags b) { return QFlags(a.i | b.i); }
-    friend QFlags operator|(QFlags a, T b) { return QFlags(a.i | int(b)); }
-    friend QFlags operator&(QFlags a, QFlags b) { return QFlags(a.i & b.i); }
-    friend QFlags operator&(QFlags a, T b) { return QFlags(a.i & int(b)); }
-    friend QFlags operator^(QFlags a, QFlags b) { return QFlags(a.i ^ b.i); }
-    friend QFlags operator^(QFlags a, T b) { return QFlags(a.i ^ int(b)); }
     QFlags operator~() const { return QFlags(~i); }
     bool operator!() const { return !i; }
 };
+template <typename T> QFlags<T> operator|(QFlags<T> a, QFlags<T> b) { return QFlags<T>(a.i | b.i); }
+template <typename T> QFlags<T> operator|(QFlags<T> a, T b) { return QFlags<T>(a.i | int(b)); }
+template <typename T> QFlags<T> operator|(T a, QFlags<T> b) { return QFlags<T>(int(a) | b.i); }
+template <typename T> QFlags<T> operator&(QFlags<T> a, QFlags<T> b) { return QFlags<T>(a.i & b.i); }
+template <typename T> QFlags<T> operator&(QFlags<T> a, T b) { return QFlags<T>(a.i & int(b)); }
+template <typename T> QFlags<T> operator&(T a, QFlags<T> b) { return QFlags<T>(int(a) & b.i); }
+template <typename T> QFlags<T> operator^(QFlags<T> a, QFlags<T> b) { return QFlags<T>(a.i ^ b.i); }
+template <typename T> QFlags<T> operator^(QFlags<T> a, T b) { return QFlags<T>(a.i ^ int(b)); }
+template <typename T> QFlags<T> operator^(T a, QFlags<T> b) { return QFlags<T>(int(a) ^ b.i); }
 
 // ---- signals and connections ----
 struct SignalKey {
@@ -167,9 +173,10 @@ public:
     static long &counter() { static long c = 0; return c; }
     static long &live() { static long c = 0; return c; }
     virtual ~QObject() {}
-    template <typename C, typename... A, typename F>
-    static QMetaObject::Connection connect(C *sender, void (C::*sig)(A...), QObject *context, F f) {
+    template <typename S, typename C, typename... A, typename F>
+    static QMetaObject::Connection connect(S *sender, void (C::*sig)(A...), QObject *context, F f) {
         (void)context;
+        static_assert(std::is_base_of<C, S>::value, "the signal must belong to the sender's class or a base class");
         auto cd = std::make_shared<ConnectionData>();
         cd->sender = sender; cd->key = signalKey(sig); cd->id = ++counter();
         cd->fn = [f](void **args) mutable { invoke<F, A...>(f, args); };
@@ -229,6 +236,11 @@ public:
     QDebug &operator<<(int i) { sep(); buf += "i:" + std::to_string(i); return *this; }
     QDebug &operator<<(uint i) { sep(); buf += "u:" + std::to_string(i); return *this; }
     QDebug &operator<<(long long i) { sep(); buf += "l:" + std::to_string(i); return *this; }
+    QDebug &operator<<(long i) { sep(); buf += "l:" + std::to_string(i); return *this; }
+    QDebug &operator<<(unsigned long i) { sep(); buf += "l:" + std::to_string(i); return *this; }
+    QDebug &operator<<(unsigned long long i) { sep(); buf += "l:" + std::to_string(i); return *this; }
+    QDebug &operator<<(float x) { return *this << double(x); }
+    QDebug &operator<<(char c) { sep(); buf += std::string("c:") + c; return *this; }
     QDebug &operator<<(double x) { sep(); uint64_t b; std::memcpy(&b, &x, 8); buf += "d:" + std::to_string(b); return *this; }
     template <typename T, typename = std::enable_if_t<std::is_enum<T>::value>> QDebug &operator<<(T e) { sep(); buf += "e:" + std::to_string((long long)e); return *this; }
     template <typename T> QDebug &operator<<(const QFlags<T> &f) { sep(); buf += "e:" + std::to_string(f.i); return *this; }
